@@ -2,7 +2,7 @@
 value equality with the gold annotation; the training entry point builds the documented pipeline."""
 import z3
 
-from pyvc.values import Obj, Tok, UTerm, Builtin, ModVal, Unsupported, FuncVal
+from pyvc.values import Obj, Tok, UTerm, Builtin, ModVal, Unsupported, FuncVal, PyRaise
 from pyvc.logic import And, Or, Not, Implies, Iff
 from pyvc import symargs
 from contracts.extra import FuncUnit, _wf_arg
@@ -96,3 +96,91 @@ def units(world):
                         prop_map={"safety": ["C17"], "frame": ["C12"]})
     out.append(mk_train())
     return out
+
+
+def run_corpus_unit(world):
+    """run_corpus on a one-target corpus with a stubbed candidate stream: every candidate contributes one
+    sample per trace prefix, all labelled by `nb_str() == target`; the corpus fails iff a test never
+    produces its target"""
+    def setup(it, w):
+        return [{}]
+
+    def call(it, w, a):
+        seen = a[0]
+        cls = w.classes["CTParse"]
+        mk = lambda tag, prod: Obj(cls, fresh=True, label=tag)
+        p1, p2 = mk("p1", None), mk("p2", None)
+        r1, r2 = Obj(w.classes["Time"], fresh=False, label="res1"), Obj(w.classes["Time"], fresh=False, label="res2")
+        p1.attrs.update({"resolution": r1, "production": (100, "ruleA"), "score": z3.Real("s1")})
+        p2.attrs.update({"resolution": r2, "production": (101, 102, "ruleB"), "score": z3.Real("s2")})
+        it.contracts = dict(it.contracts)
+        target = UTerm("input", ["target"], "str")
+        seen["target"] = target
+        it.contracts["types.Artifact.nb_str"] = lambda it2, f2, args, k: UTerm("nb_str", [Tok(args[0].label)], "str")
+
+        def gen(it2, f2, args, kwargs):
+            seen.setdefault("calls", []).append(it2.bind_args(f2, args, kwargs))
+            return [p1, p2]
+        it.contracts["ctparse.ctparse_gen"] = gen
+        try:
+            r = it.call(w.func("corpus.run_corpus"), [[(target, "2018-03-07T12:43", ["some text"])]], {})
+            seen["raised"] = False
+            return r
+        except PyRaise as e:
+            if e.cls != "Exception":
+                raise
+            seen["raised"] = True
+            return None
+
+    def ens(it, w, a, r):
+        seen = a[0]
+        ys = [c for c in it.pc]          # the two label tests are uninterpreted comparisons nb_str(res) == target
+        calls = seen.get("calls", [])
+        fw = len(calls) == 1 and calls[0].get("latent_time") is False and calls[0].get("timeout") == 0 \
+            and calls[0].get("max_stack_depth") == 0 and calls[0].get("relative_match_len") == 1.0 \
+            and isinstance(calls[0].get("scorer"), Obj) and calls[0]["scorer"].cls.name == "DummyScorer"
+        out = [("whole-search-without-latent-anchoring", ["C17"], bool(fw))]
+        if seen.get("raised"):
+            # failing corpus: no candidate equals the target on this path
+            out.append(("fails-only-when-the-target-is-never-produced", ["C17"],
+                        z3.And(*[z3.Not(b) for b in _eqtests(it)]) if _eqtests(it) else False))
+            return out
+        ok = isinstance(r, tuple) and len(r) == 2
+        want = [["100"], ["100", "ruleA"], ["101"], ["101", "102"], ["101", "102", "ruleB"]]
+        out.append(("one-sample-per-trace-prefix-in-order", ["C17"], ok and r[0] == want and len(r[1]) == 5))
+        if ok and len(r[1]) == 5:
+            b = _eqtests(it)
+            lab = len(b) == 2 and all(it.truthy(x) is not None for x in r[1])
+            same1 = z3.And(it.truthy(r[1][0]) == it.truthy(r[1][1]))
+            same2 = z3.And(it.truthy(r[1][2]) == it.truthy(r[1][3]), it.truthy(r[1][3]) == it.truthy(r[1][4]))
+            out.append(("all-prefixes-of-a-candidate-carry-its-label", ["C17"], z3.And(same1, same2) if lab else False))
+            out.append(("passes-only-when-some-candidate-equals-the-target", ["C17"], z3.Or(*b) if b else False))
+        return out
+    return FuncUnit("corpus.run_corpus", ["corpus.run_corpus"], ["C17", "C12"], setup, call, ens,
+                    prop_map={"safety": ["C17"], "frame": ["C12"]}, cost=2)
+
+
+def _eqtests(it):
+    out, seenn = [], set()
+    for c in it.pc:
+        for x in _bools(c):
+            if str(x).startswith("eqtest!") and str(x) not in seenn:
+                seenn.add(str(x))
+                out.append(x)
+    return out
+
+
+def _bools(e):
+    out = []
+    if z3.is_const(e) and z3.is_bool(e) and e.decl().kind() == z3.Z3_OP_UNINTERPRETED:
+        out.append(e)
+    for c in e.children():
+        out.extend(_bools(c))
+    return out
+
+
+_units_c17 = units
+
+
+def units(world):  # noqa: F811
+    return _units_c17(world) + [run_corpus_unit(world)]
